@@ -697,10 +697,8 @@ let rec cty_name (t : cty) : Stdlib.String.t =
 let atom_of_bytes (s : Stdlib.String.t) : Stdlib.String.t =
   let b = Buffer.create 16 in Buffer.add_char b 'x'; String.iter (fun c -> Buffer.add_string b (Printf.sprintf "%02x" (Char.code c))) s; Buffer.contents b
 
-let run_typeof payload =
-  match payload with
-  | [_; L [A "info"; L (A "entities" :: es); L (A "enums" :: ens); L (A "actions" :: acts)]; A mode; A pt; act; A rt; e] ->
-    let sch = { ts_entities = List.map (function
+let tschema_of_info es ens acts =
+    { ts_entities = List.map (function
         | L [A n; L (A "parents" :: ps); L [A "shape"; L (A "rec" :: fs)]; L [A "tags"; tg]] ->
           (str_of_atom n, { te_parents = List.map (fun p -> str_of_atom (atom p)) ps; te_shape = crec_of_rsx fs;
                             te_tags = (match tg with A "none" -> None | t -> Some (cty_of_rsx t)) })
@@ -708,9 +706,14 @@ let run_typeof payload =
         ts_enums = List.map (fun x -> str_of_atom (atom x)) ens;
         ts_actions = List.map (function L (L [A "e"; A t; A i] :: _) -> (str_of_atom t, str_of_atom i) | _ -> failwith "info action") acts;
         ts_agraph = List.map (function
-            | L [L [A "e"; A t; A i]; _; L (A "parents" :: ps)] ->
+            | L (L [A "e"; A t; A i] :: _ :: L (A "parents" :: ps) :: _) ->
               ((str_of_atom t, str_of_atom i), List.map (function L [A "e"; A pt; A pi] -> (str_of_atom pt, str_of_atom pi) | _ -> failwith "info action parent") ps)
-            | _ -> failwith "info action") acts } in
+            | _ -> failwith "info action") acts }
+
+let run_typeof payload =
+  match payload with
+  | [_; L [A "info"; L (A "entities" :: es); L (A "enums" :: ens); L (A "actions" :: acts)]; A mode; A pt; act; A rt; e] ->
+    let sch = tschema_of_info es ens acts in
     let (at, ai) = match act with L [A "e"; A t; A i] -> (str_of_atom t, str_of_atom i) | _ -> failwith "action uid" in
     let ctx = List.fold_left (fun acc a -> match a with
         | L (L [A "e"; A t; A i] :: L [A "context"; L (A "rec" :: fs)] :: _) when str_of_atom t = at && str_of_atom i = ai -> crec_of_rsx fs
@@ -722,8 +725,28 @@ let run_typeof payload =
      | TUnk -> L [A "unmodelled"])
   | _ -> failwith "typeof payload"
 
+(* ---- vverdict: Validator.Policy accept / reject (Impl/ValidatePolicy.v) ---- *)
+let run_vverdict payload =
+  match payload with
+  | [_; L [A "info"; L (A "entities" :: es); L (A "enums" :: ens); L (A "actions" :: acts)]; A mode; p] ->
+    let sch = tschema_of_info es ens acts in
+    let acts' = List.map (function
+        | L [L [A "e"; A t; A i]; L [A "context"; cx]; _; L (A "applies" :: ap)] ->
+          ((str_of_atom t, str_of_atom i),
+           (match ap with
+            | [A "none"] -> None
+            | [L (A "principals" :: pr); L (A "resources" :: rr)] ->
+              let ctx = (match cx with L (A "rec" :: fs) -> crec_of_rsx fs | _ -> []) in
+              Some ((List.map (fun x -> str_of_atom (atom x)) pr, List.map (fun x -> str_of_atom (atom x)) rr), ctx)
+            | _ -> failwith "info applies"))
+        | _ -> failwith "info action (vverdict)") acts in
+    let (_, pol) = policy_of_sx p in
+    if validate_policy (mode = "strict") sch acts' pol then L [A "accept"] else L [A "reject"]
+  | _ -> failwith "vverdict payload"
+
 let run_case kind payload =
   match kind with
+  | "vverdict" -> run_vverdict payload
   | "typeof" -> run_typeof payload
   | "sjsonenc" -> run_sjsonenc payload
   | "sjsondec" -> run_sjsondec payload
